@@ -12,7 +12,7 @@ import struct
 from fractions import Fraction as Fr
 
 _S = {}
-EPOCH = 1700000000.0
+EPOCH = 1700000000.625      # deliberately not a whole second (exact in binary64)
 
 
 def fr(x):
